@@ -319,6 +319,17 @@ def semantic_lookup_sites(prog, rep, failed):
 
                     mm = _re.match(r"^&(?:'[a-z_]+ )?\[(.*)\]$", lty)
                     ety = mm.group(1) if mm else None
+                if ety is not None and "Codepoints" not in ety and "?" not in ety and not __import__("re").match(r"^[A-Z]\w*$", ety):
+                    # a search over something that is not a table of Codepoints entries (e.g. a registry keyed by
+                    # plain ranges): outside this lemma — whatever property uses that table judges it
+                    n = st.ext.get("nbs", 0) + 1
+                    found = st.choose(("bs", n), [True, False])
+                    st.ext["nbs"] = n
+                    results.setdefault(site_fn, []).append(None)
+                    rep.sample({"L3-out-of-scope": site_fn, "element type": ety})
+                    if found:
+                        return ip.ok(ip.Sym(("idx", n), "usize"))
+                    return ip.err(ip.Sym(("ins", n), "usize"))
                 if ety is None or not (ety.startswith("(") or "Codepoints" in ety):
                     # a generic element type: the caller's static decides — look one frame up
                     for fr2 in reversed(st.frames[:-1]):
